@@ -5,8 +5,7 @@
     code by the correspondence run and, for the cell-id arithmetic, by the translator: the
     [s2_CellID_*] functions are regenerated from /repo on every run).  The model is parametric in
     the region: [intersects]/[contains] are the region's IntersectsCell/ContainsCell as functions
-    of the cell id, [bound] its CellUnionBound, [fallback] the result of the nested
-    [NewRegionCoverer().Covering(&covering)] call in normalizeCovering.
+    of the cell id, [bound] its CellUnionBound.
 
     Region semantics: [pts : Z -> Prop] on leaf cell ids;
     [leaf_in x c := RangeMin c <= x <= RangeMax c]; [covered l x := exists c in l, leaf_in x c].
@@ -21,82 +20,97 @@ From Geo Require Import Gen.CellID.  (* s2_CellID_Level *)
 Import ListNotations.
 Local Open Scope Z_scope.
 
+(** The "very large covering" branch of normalizeCovering re-covers the covering with a coverer that
+    has the same options (/repo 81ed250); the model's [cu_fallback depth cubound] is that nested run
+    ([depth] bounds the nesting, [cubound] stands for covering.CapBound().CellUnionBound()).
+    [CuBoundOK cubound]: that bound consists of valid cells covering the union (float geometry,
+    H-CAPARITH).  All statements hold for every [depth]. *)
+
 (** Covering covers: every leaf of the region lies in a returned cell — for every configuration
     (all four option fields are arbitrary integers; clamping is part of the model). *)
-Theorem covering_covers : forall intersects contains bound fallback pts rc,
-  ValidB bound -> FallbackOK fallback -> SoundI intersects pts -> SoundB bound pts ->
-  forall r, Covering intersects contains bound fallback rc = Some r ->
+Theorem covering_covers : forall intersects contains bound cubound depth pts rc,
+  ValidB bound -> CuBoundOK cubound -> SoundI intersects pts -> SoundB bound pts ->
+  forall r, Covering intersects contains bound (cu_fallback depth cubound) rc = Some r ->
   forall x, is_leaf x -> pts x -> covered r x.
-Proof. exact covering_covers_lemma. Qed.
+Proof. exact real_covering_covers. Qed.
 Print Assumptions covering_covers.
 
-Theorem cellunion_covers : forall intersects contains bound fallback pts rc,
-  ValidB bound -> FallbackOK fallback -> SoundI intersects pts -> SoundB bound pts ->
-  forall r, CellUnion intersects contains bound fallback rc = Some r ->
+Theorem cellunion_covers : forall intersects contains bound cubound depth pts rc,
+  ValidB bound -> CuBoundOK cubound -> SoundI intersects pts -> SoundB bound pts ->
+  forall r, CellUnion intersects contains bound (cu_fallback depth cubound) rc = Some r ->
   forall x, is_leaf x -> pts x -> covered r x.
-Proof. exact cellunion_covers_lemma. Qed.
+Proof. exact real_cellunion_covers. Qed.
 Print Assumptions cellunion_covers.
 
 (** FastCovering covers; it needs the bound only. *)
-Theorem fast_covering_covers : forall bound fallback pts rc,
-  ValidB bound -> FallbackOK fallback -> SoundB bound pts ->
-  forall r, FastCovering bound fallback rc = Some r ->
+Theorem fast_covering_covers : forall bound cubound depth pts rc,
+  ValidB bound -> CuBoundOK cubound -> SoundB bound pts ->
+  forall r, FastCovering bound (cu_fallback depth cubound) rc = Some r ->
   forall x, is_leaf x -> pts x -> covered r x.
-Proof. exact fast_covering_covers_lemma. Qed.
+Proof. exact real_fast_covering_covers. Qed.
 Print Assumptions fast_covering_covers.
 
 (** Interior coverings are contained: every leaf of every returned cell is a region leaf. *)
-Theorem interior_contained : forall intersects contains bound fallback pts rc,
-  ValidB bound -> FallbackOK fallback -> SoundC contains pts ->
-  forall r, InteriorCovering intersects contains bound fallback rc = Some r ->
+Theorem interior_contained : forall intersects contains bound cubound depth pts rc,
+  ValidB bound -> CuBoundOK cubound -> SoundC contains pts ->
+  forall r, InteriorCovering intersects contains bound (cu_fallback depth cubound) rc = Some r ->
   forall c, In c r -> forall x, is_leaf x -> leaf_in x c -> pts x.
-Proof. exact interior_contained_lemma. Qed.
+Proof. exact real_interior_contained. Qed.
 Print Assumptions interior_contained.
 
-Theorem interior_cellunion_contained : forall intersects contains bound fallback pts rc,
-  ValidB bound -> FallbackOK fallback -> SoundC contains pts ->
-  forall r, InteriorCellUnion intersects contains bound fallback rc = Some r ->
+Theorem interior_cellunion_contained : forall intersects contains bound cubound depth pts rc,
+  ValidB bound -> CuBoundOK cubound -> SoundC contains pts ->
+  forall r, InteriorCellUnion intersects contains bound (cu_fallback depth cubound) rc = Some r ->
   forall c, In c r -> forall x, is_leaf x -> leaf_in x c -> pts x.
-Proof. exact interior_cellunion_contained_lemma. Qed.
+Proof. exact real_interior_cellunion_contained. Qed.
 Print Assumptions interior_cellunion_contained.
 
-(** Level limits: every cell of Covering / InteriorCovering is a valid cell id whose level L
-    satisfies minLevel <= L <= max(maxLevel, minLevel) and (L - minLevel) mod levelMod = 0,
+(** Level limits: every cell of Covering / InteriorCovering / FastCovering is a valid cell id whose
+    level L satisfies minLevel <= L <= max(maxLevel, minLevel) and (L - minLevel) mod levelMod = 0,
     for the clamped options (when MinLevel > MaxLevel, MinLevel wins, as in the Go code). *)
-Theorem levels_ok : forall intersects contains bound fallback rc,
-  ValidB bound -> FallbackOK fallback ->
-  forall r, (Covering intersects contains bound fallback rc = Some r \/
-             InteriorCovering intersects contains bound fallback rc = Some r) ->
+Theorem levels_ok : forall intersects contains bound cubound depth rc,
+  ValidB bound -> CuBoundOK cubound ->
+  forall r, (Covering intersects contains bound (cu_fallback depth cubound) rc = Some r \/
+             InteriorCovering intersects contains bound (cu_fallback depth cubound) rc = Some r \/
+             FastCovering bound (cu_fallback depth cubound) rc = Some r) ->
   Forall (fun c => valid c /\
                    clampMinLevel rc <= s2_CellID_Level c <= Z.max (clampMaxLevel rc) (clampMinLevel rc) /\
                    (s2_CellID_Level c - clampMinLevel rc) mod clampLevelMod rc = 0) r.
-Proof. intros i c b f rc. exact (levels_ok_lemma i c b f (fun _ => True) rc). Qed.
+Proof. intros i c b cb d rc. exact (real_levels_ok i c b cb d (fun _ => True) rc). Qed.
 Print Assumptions levels_ok.
 
 (** Termination: the Go main loop has no fuel; the model's loop (2^(201+n) - 1 iterations allowed,
-    n = initial queue length) never runs out, so every entry point returns a result. *)
-Theorem coverer_terminates : forall intersects contains bound fallback rc,
-  ValidB bound -> FallbackOK fallback ->
-  (exists r, Covering intersects contains bound fallback rc = Some r) /\
-  (exists r, InteriorCovering intersects contains bound fallback rc = Some r) /\
-  (exists r, CellUnion intersects contains bound fallback rc = Some r) /\
-  (exists r, InteriorCellUnion intersects contains bound fallback rc = Some r) /\
-  (exists r, FastCovering bound fallback rc = Some r).
-Proof. intros i c b f rc. exact (terminates_lemma i c b f (fun _ => True) rc). Qed.
+    n = initial queue length) never runs out.  What remains a premise is that the NESTING of the
+    "very large covering" branch stays within [depth] ([FallbackTotal]): in Go it ends because each
+    nested CellUnionBound is coarser than the previous one (float geometry; see TODO below). *)
+Theorem coverer_terminates : forall intersects contains bound cubound depth rc,
+  ValidB bound -> CuBoundOK cubound -> FallbackTotal (cu_fallback depth cubound) ->
+  (exists r, Covering intersects contains bound (cu_fallback depth cubound) rc = Some r) /\
+  (exists r, InteriorCovering intersects contains bound (cu_fallback depth cubound) rc = Some r) /\
+  (exists r, CellUnion intersects contains bound (cu_fallback depth cubound) rc = Some r) /\
+  (exists r, InteriorCellUnion intersects contains bound (cu_fallback depth cubound) rc = Some r) /\
+  (exists r, FastCovering bound (cu_fallback depth cubound) rc = Some r).
+Proof. intros i c b cb d rc. exact (real_terminates i c b cb d (fun _ => True) rc). Qed.
 Print Assumptions coverer_terminates.
 
-(** FINDING on the unchanged tree (KNOWN_FINDINGS.jsonl, kind
-    "FastCovering(default-coverer-fallback).levels"): the full-strength statement "FastCovering
-    honours MinLevel and LevelMod" is FALSE of the faithful model.  normalizeCovering's "very large
-    covering" branch covers with NewRegionCoverer() defaults.  The witness below was observed on the
-    Go code (cap of radius 6.96e-6 rad, RegionCoverer{MinLevel:10, MaxLevel:24, LevelMod:3,
-    MaxCells:-2600}); [refute_cubound] is the CellUnionBound the Go code computed for the nested call. *)
-Theorem fast_covering_levels_refuted :
+(** The nested branch itself: with the same options it inherits every guarantee above. *)
+Theorem large_covering_branch_sound : forall cubound, CuBoundOK cubound ->
+  forall depth, FallbackSound (cu_fallback depth cubound).
+Proof. exact cu_fallback_sound. Qed.
+Print Assumptions large_covering_branch_sound.
+
+(** FIXED FINDING (KNOWN_FINDINGS.jsonl, kind "FastCovering(default-coverer-fallback).levels",
+    repaired by /repo 81ed250): before the repair the branch covered with NewRegionCoverer() defaults,
+    and "FastCovering honours MinLevel and LevelMod" was FALSE of the faithful model of that code
+    ([cu_fallback_old]).  Witness observed on the old Go code (cap of radius 6.96e-6 rad,
+    RegionCoverer{MinLevel:10, MaxLevel:24, LevelMod:3, MaxCells:-2600}); the same input is in the
+    observer's corpus and must now pass (levels_ok above covers FastCovering). *)
+Theorem fast_covering_levels_old_refuted :
   ValidB refute_bound /\ all_valid refute_cubound /\
-  exists r c, FastCovering refute_bound (cu_fallback (fun _ => refute_cubound)) refute_opts = Some r /\
+  exists r c, FastCovering refute_bound (cu_fallback_old (fun _ => refute_cubound)) refute_opts = Some r /\
     In c r /\ valid c /\ (s2_CellID_Level c - clampMinLevel refute_opts) mod clampLevelMod refute_opts <> 0.
 Proof. exact fast_levels_refuted_lemma. Qed.
-Print Assumptions fast_covering_levels_refuted.
+Print Assumptions fast_covering_levels_old_refuted.
 
 (** Second sentence of the property, for the regions whose predicates are id-range logic:
     s2.Cell (ContainsCell = CellID.Contains, IntersectsCell = CellID.Intersects, translated functions)
@@ -116,22 +130,19 @@ Proof. intros l c Vl Nl Vc. split; [exact (cu_contains_sound l Vl Nl c Vc)|exact
 Print Assumptions cellunion_region_predicates_safe.
 
 (* TODO (not proved; covered by the observer's search on every run):
-   - FallbackOK for [cu_fallback cubound] (the nested NewRegionCoverer().Covering(&covering) of
-     normalizeCovering's "very large covering" branch): follows from covering_covers /
-     coverer_terminates / levels_ok applied to the cell union as a region (its predicates are safe by
-     cellunion_region_predicates_safe) plus "the result is not deeper than the deepest cell of the
-     union", which needs completeness of cu_ContainsCellID; the branch is reached only when
-     (len - MaxCells) * len > 10000, i.e. for bounds of more than 100 cells or MaxCells < -2400.
-   - SoundI / SoundC / SoundB for s2.Cap, s2.Rect, s2.Loop, s2.Polygon, s2.Polyline, s2.Point:
-     floating-point geometry, carried as H-CAPARITH, H-LATBOUND, H-CLIP, H-JORDAN (DESIGN.md section 4).
-   - FastCovering's own level limits ("all of the usual parameters are respected") outside the
-     refuted branch: checked by the observer only. *)
+   - FallbackTotal (cu_fallback depth cubound): the nesting depth of the "very large covering" branch.
+     Needs the geometric fact that CapBound().CellUnionBound() of a union is strictly coarser than the
+     union's coarsest cell or is the six faces (then the covering is canonical and the branch is not
+     taken again).  The correspondence runs use depth 64; observed nesting is at most 16.
+   - SoundI / SoundC / SoundB for s2.Cap, s2.Rect, s2.Loop, s2.Polygon, s2.Polyline, s2.Point and
+     CuBoundOK: floating-point geometry, carried as H-CAPARITH, H-LATBOUND, H-CLIP, H-JORDAN
+     (DESIGN.md section 4). *)
 
 (** The hypotheses are jointly satisfiable: the region consisting of face cell 0 (all its leaves) with
-    the id-range predicates of s2.Cell, the face as its own bound and an identity fallback. *)
+    the id-range predicates of s2.Cell, the face as its own bound; a cell union is its own bound. *)
 Example hypotheses_satisfiable :
   let face0 := s2_CellIDFromFace 0 in
   let pts := fun x => leaf_in x face0 in
-  ValidB [face0] /\ FallbackOK (fun l => Some l) /\ SoundB [face0] pts /\
+  ValidB [face0] /\ CuBoundOK (fun l => l) /\ SoundB [face0] pts /\
   SoundI (s2_CellID_Intersects face0) pts /\ SoundC (s2_CellID_Contains face0) pts.
 Proof. exact hyps_example_full. Qed.
